@@ -12,3 +12,7 @@ func verifGetQuestion() *Question { return nil }
 func verifObjRelease(o any) bool { return false }
 
 func verifObjQuarantine(o any) bool { return false }
+
+func verifObjEnabled() bool { return false }
+
+func verifObjAfterRelease(o any) {}
